@@ -10,8 +10,14 @@
    SyncChain, line by line:
      last := store.Last(); if last.Round < fromRound  -> return ErrNoBeaconStored
      if fromRound != 0 { store.Cursor: bb := Seek(fromRound); for bb != nil { send(bb); bb = Next() } }
-     store.AddCallback(id, cb)      cb: closed -> ErrCallbackReplaced; send(b) fails -> RemoveCallback(id)
+     store.AddCallback(id, cb)      cb: closed -> ErrCallbackReplaced; under sendMu: drop b if b.Round <= lastSent,
+                                    else send the stored rounds lastSent+1..b.Round-1, then b; a failed send ->
+                                    RemoveCallback(id)
+     under sendMu: send the stored rounds lastSent+1..Last().Round  (what was stored since the scan)
      wait for the error
+   (lastSent = fromRound-1, advanced by every send; = Last().Round when fromRound = 0.) Since the
+   mutex serializes the catch-up and the callback, and rounds <= lastSent are dropped, which of the
+   two sends a given round is not observable: a stream is one FIFO of beacons.
    Events (the schedule is the quantified variable; the harness gates Send and AddCallback so that it
    chooses the schedule on the real code):
      SPut d        a beacon with content token d is appended to the store (round = next round) and
@@ -24,9 +30,9 @@
    The store holds rounds 0..n-1 at indices 0..n-1 (the stack under the callback store is append
    only, C02). Queues are unbounded here; blocking on full queues is the subject of Model/CbStore.v.
 
-   Ghost fields (they do not influence behaviour): s_exp = the beacons the stream is committed to
-   deliver (what its scan covers plus what its callback was handed); s_missed = the beacons appended
-   while the stream was between its snapshot / last scan read and its AddCallback. *)
+   s_missed = the beacons appended while the stream was between its snapshot / last scan read and
+   its AddCallback; they are sent right after AddCallback. Ghost fields (they do not influence
+   behaviour): s_exp = the beacons the stream is committed to deliver; s_reg. *)
 From Coq Require Import ZArith List Bool.
 Import ListNotations.
 Open Scope Z_scope.
@@ -51,7 +57,7 @@ Record stream := mkS {
   s_sent : list beacon;        (* beacons passed to Send and not refused by it, in order *)
   s_base : nat;                (* index in the store of the first beacon the request asks for *)
   s_exp : list beacon;         (* ghost *)
-  s_missed : list beacon;      (* ghost *)
+  s_missed : list beacon;      (* appended since the snapshot / last scan read, not yet sent *)
   s_reg : option (nat * nat)   (* ghost: length of the store and of s_sent when AddCallback ran *)
 }.
 
@@ -174,8 +180,15 @@ Definition ss_step (bk : backend) (st : sst) (e : sev) : sst :=
                                       | Some o => supd j (on_close o) (streams st)
                                       | None => streams st end
                           | None => streams st end in
-              let s' := mkS (s_cid s) (s_from s) (PLive [] false) (s_sent s) (s_base s) (s_exp s) (s_missed s)
-                            (Some (length (store st), length (s_sent s))) in
+              (* the catch-up after AddCallback: the beacons stored since the snapshot / last scan read
+                 (rounds lastSent+1 .. Last().Round) are read from the store and sent first, under the
+                 mutex that also serializes the callback; beacons appended later queue up behind them *)
+              let rg := Some ((length (store st) - length (s_missed s))%nat, length (s_sent s)) in
+              let s' := match s_missed s with
+                        | [] => mkS (s_cid s) (s_from s) (PLive [] false) (s_sent s) (s_base s) (s_exp s) [] rg
+                        | m :: ms => mkS (s_cid s) (s_from s) (PLive (map SJ ms) true) (s_sent s ++ [m]) (s_base s)
+                                         (s_exp s ++ m :: ms) [] rg
+                        end in
               mkSS (store st) (supd k s' strs) (rdel (s_cid s) (reg st) ++ [(s_cid s, k)])
           | _ => st
           end
